@@ -191,8 +191,9 @@ static inline _Bool spec_is_outer4 (SM r, SM a, SM b)
     for (int i = 0; i < 4; i++) for (int j = 0; j < 4; j++) if (E (r, 4, i, j) != a.e[i] * b.e[j]) return 0;
     return 1;
 }
+#define OUTER4_OK(R, A, B) ((R).x[0][0] == (A).x * (B).x && (R).x[0][1] == (A).x * (B).y && (R).x[0][2] == (A).x * (B).z && (R).x[0][3] == (A).x * (B).w && (R).x[1][0] == (A).y * (B).x && (R).x[1][1] == (A).y * (B).y && (R).x[1][2] == (A).y * (B).z && (R).x[1][3] == (A).y * (B).w && (R).x[2][0] == (A).z * (B).x && (R).x[2][1] == (A).z * (B).y && (R).x[2][2] == (A).z * (B).z && (R).x[2][3] == (A).z * (B).w && (R).x[3][0] == (A).w * (B).x && (R).x[3][1] == (A).w * (B).y && (R).x[3][2] == (A).w * (B).z && (R).x[3][3] == (A).w * (B).w)
 M44 F_outer4 (V4 *a, V4 *b) __CPROVER_requires (RD (a) && RD (b)) __CPROVER_assigns ()
-    __CPROVER_ensures (spec_is_outer4 (sm44 (__CPROVER_return_value), sv4 (*a), sv4 (*b)));
+    __CPROVER_ensures (OUTER4_OK (__CPROVER_return_value, *a, *b));
 
 /* vector x matrix (row vector on the left) */
 #define V2A(v) sv2 (v)
@@ -313,7 +314,7 @@ void h_qmul (void) { IN_Q (a, in_a); IN_Q (b, in_b); QU *pb = VF_ALIAS ? &a : &b
 void h_qmuleq (void) { IN_Q (a, in_a); IN_Q (b, in_b); QU *pb = VF_ALIAS ? &a : &b; QU a0 = a, b0 = *pb; F_qmuleq (&a, pb); VF_POST (QMUL_OK (a, a0, b0), "quaternion *="); VF_END (); }
 
 void h_outer3 (void) { IN_V3 (a, in_a); IN_V3 (b, in_b); M33 r = F_outer3 (&a, &b); VF_POST (r.x[1][2] == a.y * b.z && r.x[2][0] == a.z * b.x && r.x[0][1] == a.x * b.y, "outerProduct 3x3"); (void) r; VF_END (); }
-void h_outer4 (void) { IN_V4 (a, in_a); IN_V4 (b, in_b); M44 r = F_outer4 (&a, &b); VF_POST (spec_is_outer4 (sm44 (r), sv4 (a), sv4 (b)), "outerProduct 4x4"); (void) r; VF_END (); }
+void h_outer4 (void) { IN_V4 (a, in_a); IN_V4 (b, in_b); M44 r = F_outer4 (&a, &b); VF_POST (OUTER4_OK (r, a, b), "outerProduct 4x4"); (void) r; VF_END (); }
 
 void h_v4m44 (void) { IN_V4 (v, in_v); IN_M (4, m, in_m); V4 r = F_v4m44 (&v, &m); VF_POST (VM44_OK (r, v, m), "Vec4 x Matrix44"); (void) r; VF_END (); }
 void h_v4m44eq (void) { IN_V4 (v, in_v); IN_M (4, m, in_m); V4 v0 = v; F_v4m44eq (&v, &m); VF_POST (VM44_OK (v, v0, m), "Vec4 *= Matrix44"); VF_END (); }
